@@ -1,2 +1,116 @@
-def run_battery(prop, repo, base_failures, seed):
-    return dict(summary="no variants registered yet", results=[], broken=[])
+"""
+Self-test battery: the checker is run on in-memory variants of the *current*
+tree (overlay {path -> edited text}; nothing is written, nothing is executed).
+
+  seeded   an edit that breaks the property and still compiles: the named rule
+           must report a new finding
+  twin     a behaviour-preserving refactor: no new finding may appear
+
+A variant whose anchor text is not present in the current tree is skipped (the
+tree changed); a variant whose expected rule is already failing on the current
+tree is reported as masked.  Anything else that deviates means the *checker* is
+wrong -> the caller exits 2.
+"""
+from __future__ import annotations
+
+import importlib
+import os
+from concurrent.futures import ProcessPoolExecutor
+
+from .core import AnalysisError, Program
+
+
+def _apply(repo, edits):
+    overlay = {}
+    for ed in edits:
+        rel, old, new = ed[0], ed[1], ed[2]
+        occ = ed[3] if len(ed) > 3 else 1
+        if rel in overlay:
+            src = overlay[rel]
+        else:
+            p = os.path.join(repo, rel)
+            if not os.path.isfile(p):
+                return None
+            with open(p, encoding="utf8") as fh:
+                src = fh.read()
+        idx = -1
+        for _ in range(occ):
+            idx = src.find(old, idx + 1)
+            if idx < 0:
+                return None
+        src = src[:idx] + new + src[idx + len(old):]
+        overlay[rel] = src
+    return overlay
+
+
+def _run_variant(args):
+    prop, repo, overlay = args
+    from .check import run_rules
+
+    try:
+        for rel, src in overlay.items():
+            compile(src, rel, "exec")  # "still compiles"; never executed
+    except SyntaxError as e:
+        return ("syntax", [], str(e))
+    try:
+        prog = Program(repo, overlay)
+        chk = run_rules(prop, prog, "quick")
+        return ("ok", sorted(chk.failure_keys()), "")
+    except AnalysisError as e:
+        return ("analysis-error", [], str(e))
+    except Exception as e:  # pragma: no cover
+        import traceback
+
+        return ("crash", [], traceback.format_exc(limit=3))
+
+
+def run_battery(prop, repo, base_failures, seed=0, jobs=16):
+    try:
+        mod = importlib.import_module(f"sa.variants.{prop.lower()}")
+    except ModuleNotFoundError:
+        return dict(summary="no variants registered", results=[], broken=[])
+    variants = list(mod.VARIANTS)
+    base = set(base_failures)
+    work, results = [], []
+    for v in variants:
+        ov = _apply(repo, v["edits"])
+        if ov is None:
+            results.append(dict(id=v["id"], kind=v["kind"], verdict="skipped", detail="anchor text not present in the current tree"))
+            continue
+        work.append((v, ov))
+    with ProcessPoolExecutor(max_workers=min(jobs, max(1, len(work)))) as ex:
+        outs = list(ex.map(_run_variant, [(prop, repo, ov) for _, ov in work]))
+    broken = []
+    for (v, _), (status, fails, err) in zip(work, outs):
+        new = [tuple(f) for f in fails if tuple(f) not in base]
+        exp = v.get("expect")
+        if v["kind"] == "seeded":
+            if status == "ok" and any(r == exp or r.startswith(exp) for r, _ in new):
+                hit = [c for r, c in new if r == exp or r.startswith(exp)][0]
+                res = dict(verdict="caught", detail=f"{exp} fired on {hit}")
+            elif status == "ok" and any(r == exp for r, _ in base):
+                res = dict(verdict="masked", detail=f"{exp} already fails on the current tree")
+            elif status == "ok" and new:
+                res = dict(verdict="caught-other", detail=f"expected {exp}, fired {sorted({r for r, _ in new})}")
+            elif status == "analysis-error" and v.get("allow_error"):
+                res = dict(verdict="refused", detail=f"checker refused to decide: {err[:120]}")
+            else:
+                res = dict(verdict="MISSED", detail=f"status={status} {err[:160]}")
+                broken.append(v["id"])
+        else:
+            if status == "ok" and not new:
+                res = dict(verdict="silent", detail="no new finding")
+            else:
+                res = dict(verdict="FALSE-ALARM", detail=f"status={status} new={new[:3]} {err[:160]}")
+                broken.append(v["id"])
+        results.append(dict(id=v["id"], kind=v["kind"], **res))
+    n_seed = sum(1 for r in results if r["kind"] == "seeded")
+    n_caught = sum(1 for r in results if r["verdict"] in ("caught", "caught-other"))
+    n_twin = sum(1 for r in results if r["kind"] == "twin")
+    n_silent = sum(1 for r in results if r["verdict"] == "silent")
+    n_skip = sum(1 for r in results if r["verdict"] in ("skipped", "masked"))
+    return dict(
+        summary=f"{n_caught}/{n_seed} seeded violations caught, {n_silent}/{n_twin} refactor twins silent, {n_skip} skipped/masked",
+        results=results,
+        broken=broken,
+    )
